@@ -90,6 +90,7 @@ class C19(Prop):
     theorems = ["EaselModel.Props.C19." + t for t in (
         "keyhash_refines_partial", "keyhash_refines_cstrings", "keyhash_refines_mixed", "keyhash_nul_store_answer", "keyhash_string_paths", "keyhash_dump", "keyhash_cstr_of_nulfree", "keyhash_never_faults_partial", "keyhash_refines_jenkins_partial", "keyhash_ops_partial", "keyhash_upsize", "keyhash_fields_in_range_partial", "jenkins_in_range",
         "keyhash_embedded_nul_counterexample", "spec_store", "spec_lookup", "spec_get",
+        "keyhash_refines", "keyhash_never_faults", "keyhash_refines_jenkins", "keyhash_ops", "keyhash_key_length", "keyhash_get_cstring", "keyhash_string_paths_repaired", "keyhash_dump_repaired", "keyhash_fields_in_range", "keyhash_embedded_nul_repaired",
         "heap_history", "heap_insert", "heap_extract", "heap_extract_null", "heap_extract_null_unguarded_faults", "heap_sorts", "heap_drain", "heap_validate", "heap_nalloc_in_range", "heap_grow",
         "rb_insert", "rb_history", "rb_wf_iff", "rb_height", "rb_lookup", "rb_sorted_linked", "rb_linked_is_reverse_inorder", "rb_lookup_history", "rb_pool_never_twice", "rb_ptr_lookup", "rb_convert_doubly_linked", "rb_convert_null", "rb_convert_passes_list_test", "rb_ops_history",
         "stack_history", "stack_history_shuffles", "stack_no_fault", "stack_threads_atomic", "stack_threads_conservation", "stack_threads_eod_only_after_release", "stack_threads_mutex_progress", "stack_push_pop", "stack_pop_empty", "stack_lifo", "stack_popAll_unfold", "stack_discardTopN", "stack_discardSelected",
@@ -102,34 +103,71 @@ class C19(Prop):
     technique = ("Lean 4 proof (refinement of the insertion-ordered map by the chained hash table for any hash function; heap / red-black / "
                  "stack / quicksort invariants by induction) + exact differential correspondence of the executable models with the ASan/UBSan-built C code")
     level_text = ("Theorems for all histories / inputs (no bound): (1) the chained key hash (Store/Lookup/Get/Reuse/Clone, 8-fold key_upsize, arena and index reallocation) "
-                  "refines the insertion-ordered list of distinct keys for ANY hash function into [0,size) and any initial sizes, with no out-of-bounds access and no endless chain walk - for every key passed as a C string, "
-                  "and for keys passed by length that contain no NUL; (2) the integer heap refines the sorted-list priority queue for every interleaving of inserts / extractions / peeks (min and max), draining yields the sorted multiset; "
+                  "refines the insertion-ordered list of distinct keys for ANY hash function into [0,size) and any initial sizes, with no out-of-bounds access and no endless chain walk - for ARBITRARY byte strings "
+                  "(embedded NULs included; keyhash_refines, about the code after the repair 491f68d, which is the variant in the tree: regenerated flag KeyhashVariant.repaired); (2) the integer heap refines the sorted-list priority queue for every interleaving of inserts / extractions / peeks (min and max), draining yields the sorted multiset; "
                   "(3) red-black insertion as coded (recolour / 4 rotations) never reaches esl_fatal and keeps BST order, black root, no red-red, equal black height, exactly the inserted keys, height <= 2 log2(n+1), and converts to the sorted list; "
                   "(4) stacks refine the LIFO list for every history of push/pop/DiscardTopN/DiscardSelected/Reuse, shuffles permute for every generator state; "
                   "(5) index quicksort (partition as written, incl. the no-op first swap) terminates without out-of-bounds access and returns a permutation of 0..n-1 ordering the data for any total preorder, every n>=0. "
                   "The hand-written models are tied to the working tree by an exact differential run over operation histories including internal state dumps; abstract-type monitors in Python give a concrete failing history.")
     level_note = ("Trusted: Lean kernel + propext/Classical.choice/Quot.sound; fidelity of the hand models is checked (not proved) by the differential run. "
-                  "_partial: keys with an embedded NUL stored by length (known finding, counter-example proved) are excluded (esl_quicksort n=0 and esl_heap_IExtractTop(hp,NULL) on an empty heap were found by this check and are fixed in the tree; regression cases + theorems kept). "
+                  "The keyhash embedded-NUL defect (keys stored by length compared with strlen-based routines), esl_quicksort n=0 and esl_heap_IExtractTop(hp,NULL) on an empty heap were found by this check and are fixed in the tree; regression cases kept, and the theorems about the code BEFORE each fix are kept as regression theorems "
+                  "(keyhash_*_partial, keyhash_embedded_nul_counterexample are about the unrepaired key comparison, which the driver would run again if the tree went back to it). "
                   "C int overflow is excluded by an explicit bound on the abstract content (<= 2^30-1 keys / arena bytes: keyhash_fields_in_range_partial); allocation failure, concurrent use of the esl_stack mutex/cond mode (exercised sequentially only) and the hashsize >= 2^28 growth stop are outside the model or untested; red-black keys are integers (doubles without NaN).")
     trusted_base = ["hand models of esl_keyhash.c / esl_heap.c / esl_red_black.c / esl_stack.c / esl_quicksort.c tied by exact differential run "
                     "(h_containers.c, ASan+UBSan build of the working tree), including internal state dumps (heap array, tree shape and colours, stack array, table sizes)",
                     "Lean compiler/runtime for the executable driver", "gcc"]
     assumptions = ["keyhash: sentinel -1 modelled as Option.none; arena modelled as its used part smem[0..sn); int arithmetic modelled in Nat - justified by keyhash_fields_in_range_partial: while the table holds at most 2^30-1 keys and 2^30-1 arena bytes every int/uint32 field stays <= 2^31-1 (likewise nalloc of heaps and stacks: heap_nalloc_in_range, stack_nalloc_in_range)",
-                   "keyhash API with n=-1 (C strings) modelled as the buffer API applied to the bytes before the first NUL; strcmp path of Lookup tied by the differential run only",
+                   "keyhash API with n=-1 (C strings): the string hash loop and strlen as written, proved equal to the buffer API applied to the bytes before the first NUL (keyhash_string_paths_repaired; keyhash_string_paths for the strcmp walk of the unrepaired variant)",
                    "red-black: parent pointers are the recursion stack of the model; link consistency (child->parent) is checked by the harness on every dump; keys are integer-valued doubles",
-                   "stacks: one model for the I/C/P variants; the mutex / condition-variable mode (esl_stack_UseMutex, UseCond, ReleaseCond) is exercised single-threaded by a third of the generated stack histories and must behave as the plain mode (a forgotten unlock blocks the next call: watchdog); concurrent schedules are not modelled; Shuffle's Roll loop has fuel 10^6 (terminates with probability 1)",
+                   "stacks: one model for the I/C/P variants; the mutex / condition-variable mode (esl_stack_UseMutex, UseCond, ReleaseCond) is exercised single-threaded by a third of the generated stack histories (a forgotten unlock blocks the next call: watchdog) and by real pusher / popper threads (op st_threads: up to 16+16 threads, poppers started first sleep in pthread_cond_wait; compared with the StackThreads transition system run under one schedule, which by stack_threads_conservation reports what every schedule reports); assumed: the pthread primitives behave as POSIX says; Shuffle's Roll loop has fuel 10^6 (terminates with probability 1)",
+                   "keyhash: esl_keyhash_Get(kh, i) has no bounds check in C: an index that was never assigned is outside its contract (model: fault); generated histories only ask for assigned indices",
                    "red-black: a third of the generated trees take their nodes from esl_red_black_doublekey_pool_Create() blocks (1..64 nodes per block); the pool is a node supply only, the tree model is the same",
                    "quicksort: fuel >= n proved sufficient; comparison callback assumed a total preorder (as documented)",
                    "allocation failures (eslEMEM paths) are not exercised",
                    "the model's `jenkins` was measured identical to the static C jenkins_hash (buffer and string versions, bytes >= 0x80 included) on 60 keys during development; it is deliberately not compared on every run: the refinement theorem holds for every hash function, so a different hash is not a violation, and the harness does not depend on static names"]
     rule = ("cases = operation histories on one structure each; non-trivial = at least 3 answered ops none of which is bad-op; distinct by output trace")
 
+    # ------------------------------------------------------------------ which variant of the key comparison is in the tree
+    def repaired(self, ctx):
+        """True when the working tree's esl_keyhash.c delimits stored keys by their offsets (key_length / key_matches: the
+        repair of C19:keyhash:embedded-nul), False when it compares them with esl_memstrcmp / strcmp. Both variants are
+        modelled and have their theorems; the driver runs the one selected here and the exact differential run decides
+        whether the tree really behaves like it."""
+        if getattr(self, "_rep_src", None) != ctx.src:
+            import os, re
+            txt = open(os.path.join(ctx.src, "esl_keyhash.c"), errors="replace").read()
+            txt = re.sub(r"/\*.*?\*/", " ", txt, flags=re.S)
+            self._rep = ("key_matches(" in txt) and ("key_length(" in txt) and ("esl_memstrcmp(" not in txt)
+            self._rep_src = ctx.src
+        return self._rep
+
+    def generated(self, ctx):
+        rep = self.repaired(ctx)
+        ctx.stats["keyhash_variant_in_tree"] = "repaired (key_length/key_matches)" if rep else "unrepaired (esl_memstrcmp/strcmp)"
+        return {"EaselModel/Containers/KeyhashVariant.lean": (
+            "/-! GENERATED by props/c19.py (`SPEC.generated`) from the working tree's esl_keyhash.c on every run — do not edit.\n"
+            "Which of the two modelled variants of the key comparison the tree contains:\n"
+            "`false`: stored keys are compared with `esl_memstrcmp` / `strcmp` and re-hashed as C strings (`Keyhash.lean`);\n"
+            "`true` : stored keys are delimited by their offsets, `key_length()` / `key_matches()` (`KeyhashFixed.lean`).\n"
+            "The driver runs the matching model; the exact differential run decides whether the tree really behaves like it. -/\n"
+            "namespace EaselModel.Containers.Keyhash\n"
+            "def repaired : Bool := %s\n"
+            "end EaselModel.Containers.Keyhash\n" % ("true" if rep else "false"))}
+
     # ------------------------------------------------------------------ corpus
     def corpus(self, ctx):
-        return [
-            # the known finding: a key with an embedded NUL stored by length is stored twice / never found
-            {"name": "embedded-nul-witness", "known_key": NUL_KEY, "sticky": 1,
-             "ops": ["kh_new size=2 kalloc=1 salloc=1", "store key=610062", "store key=610062", "lookup key=610062", "num"]},
+        rep = self.repaired(ctx)
+        nul_ops = ["kh_new size=2 kalloc=1 salloc=1", "store key=610062", "store key=610062", "lookup key=610062", "num"]
+        if rep:
+            # the former known finding, now a plain regression case: the key is one key, found again, also after the growth 2 -> 16
+            # re-hashed it; distinct from "a" (n=-1 and n=1), from "a\0c" and from "a\0b\0"
+            witness = {"name": "embedded-nul-regression", "sticky": 1,
+                       "ops": nul_ops + ["lookup key=61 str=1", "lookup key=61", "store key=610063", "store key=61006200", "store key=00", "store key=0000", "store key=-",
+                                         "lookup key=610062", "get i=0", "get i=3", "getall", "kh_dump", "kh_sizes", "store key=61", "lookup key=610062 str=1",
+                                         "kh_clone", "kh_swap", "lookup key=610063", "lookup key=0000", "lookup key=00", "lookup key=000000", "kh_reuse", "lookup key=610062", "store key=610062", "num"]}
+        else:
+            witness = {"name": "embedded-nul-witness", "known_key": NUL_KEY, "sticky": 1, "ops": nul_ops}
+        return [witness] + [
             # regression: esl_quicksort(n=0) used to read sorted_at[-1] (fixed by `if (n > 1)`)
             {"name": "quicksort-n0-regression", "sticky": 0, "ops": ["qsort mode=asc data=-", "qsort mode=desc data=7", "qsort mode=coarse data=-"]},
             # regression: esl_heap_IExtractTop(hp, NULL) on an empty heap used to store through NULL (fixed)
@@ -169,6 +207,22 @@ class C19(Prop):
 
     # ------------------------------------------------------------------ generators
     def rand_key(self, rng, pool):
+        k = self.rand_key0(rng, pool)
+        if getattr(self, "_nul", False) and rng.random() < 0.3:
+            # the repaired code takes arbitrary bytes: embedded, leading, trailing and only NULs; keys differing after a NUL
+            r = rng.random()
+            if r < 0.3:
+                k = bytes(rng.choice(b"a\0") for _ in range(rng.choice([1, 2, 3, 5, len(k) % 7])))
+            elif r < 0.6 and k:
+                i = rng.randrange(len(k)); k = k[:i] + b"\0" + k[i + rng.randrange(2):]
+            elif r < 0.8:
+                k = k + b"\0" * rng.choice([1, 1, 2])
+            else:
+                k = b"\0" + k
+            k = k[:300]
+        return k
+
+    def rand_key0(self, rng, pool):
         r = rng.random()
         if pool and r < 0.25:
             k = rng.choice(pool)
@@ -222,6 +276,8 @@ class C19(Prop):
                     k = rng.choice(pool)
                 strmode = " str=1" if rng.random() < 0.15 else ""
                 ops.append("store key=%s%s" % (hx(k), strmode))
+                if strmode:
+                    k = k.split(b"\0")[0]           # the key really stored by an n=-1 call
                 if k not in seen:
                     seen.add(k); pool.append(k)
             elif r < 0.8:
@@ -556,6 +612,7 @@ class C19(Prop):
     def cases(self, ctx):
         rng = ctx.rng
         quick = ctx.tier == "quick"
+        self._nul = self.repaired(ctx)       # the known region (NUL keys stored by length) is avoided only while the defect is in the tree
         out = list(self.boundary_cases(rng))
         import os
         scale = float(os.environ.get("VERIF_C19_SCALE", "1"))     # development aid (mutation campaigns); 1 in normal runs
@@ -669,6 +726,7 @@ class C19(Prop):
     # ------------------------------------------------------------------ property monitor (the abstract types, in Python)
     def monitor(self, ctx, case, out):
         has_nul = False
+        rep = self.repaired(ctx)
         keys, index = [], {}                 # insertion-ordered map (current slot)
         keys2, index2 = None, None           # the other slot (a clone or the original it was cloned from)
         heap, hmax = [], False               # sorted multiset
@@ -693,7 +751,7 @@ class C19(Prop):
                 k = unhx(kv["key"])
                 if kv.get("str") == "1":
                     k = k.split(b"\0")[0]
-                elif 0 in k and name == "store":
+                elif 0 in k and name == "store" and not rep:
                     has_nul = True               # only a Store by length of such a key is in the known region (keyhash_refines_mixed)
                 if name == "store":
                     if k in index:
@@ -705,7 +763,8 @@ class C19(Prop):
                 if l != exp: return fail(i, "insertion-ordered map says %r" % exp)
             elif name == "get":
                 j = int(kv["i"])
-                if j < len(keys) and l != "ok " + hx(keys[j]): return fail(i, "key %d is %s" % (j, hx(keys[j])[:60]))
+                # (the harness reads the returned pointer as a C string: the key up to its first NUL)
+                if j < len(keys) and l != "ok " + hx(keys[j].split(b"\0")[0]): return fail(i, "key %d is %s" % (j, hx(keys[j])[:60]))
             elif name == "num":
                 if l != "ok %d" % len(keys): return fail(i, "%d keys were stored" % len(keys))
             elif name == "getall":
@@ -971,7 +1030,7 @@ class C19(Prop):
         return {"cases": len(cs), "max_ops_per_case": maxops, "ops": dict(opcount), "key_lengths": dict(keylen)}
 
     def extra_evidence(self, ctx):
-        return {}
+        return {"keyhash_variant_in_tree": ctx.stats.get("keyhash_variant_in_tree")}
 
 
 SPEC = C19()
